@@ -43,8 +43,19 @@ def graph_specs(draw, max_nodes: int = 12, min_nodes: int = 0, names: str = "adv
     out_pool = OUT_NAMES + (ATTR_NAMES if attr_outputs else [])
     in_pool = IN_NAMES + (PARAM_NAMES if param_inputs else [])
     nodes: list[dict] = []
+    alias: dict[tuple, int] = {}  # (node index, output name) -> index of a default-output node called "<node name>.<output name>"
     for i in range(n):
         kind = draw(st.sampled_from(["default", "default", "default", "named", "named", "none"]))
+        named_before = [(j, o) for j in range(i) for o in (nodes[j]["outputs"] or []) if (j, o) not in alias]
+        if names != "unicode" and named_before and draw(st.integers(0, 3)) == 0:
+            # a node whose NAME spells another node's output ("x.y" next to output y of node x): anything that identifies an output by
+            # its printed form confuses the two
+            j, o = draw(st.sampled_from(named_before))
+            nm = f"{nodes[j]['name']}.{o}"
+            if nm not in nms[:i] and nm not in nms[i + 1:]:
+                nms[i] = nm
+                alias[(j, o)] = i
+                kind = "default"
         if kind == "default":
             outputs = None
         elif kind == "none" and allow_no_outputs:
@@ -55,7 +66,7 @@ def graph_specs(draw, max_nodes: int = 12, min_nodes: int = 0, names: str = "adv
         cands = [j for j in range(i) if nodes[j]["outputs"] is None or len(nodes[j]["outputs"]) > 0]
         if cands:
             # duplicate of an earlier node: same payload, outputs and inputs
-            if dup_bias and i > 0 and draw(st.integers(0, 4)) == 0:
+            if dup_bias and i > 0 and i not in alias.values() and draw(st.integers(0, 4)) == 0:
                 j = draw(st.integers(0, i - 1))
                 nodes.append({"name": nms[i], "outputs": _cp(nodes[j]["outputs"]), "payload": nodes[j]["payload"],
                               "inputs": {k: list(v) for k, v in nodes[j]["inputs"].items()}})
@@ -64,9 +75,15 @@ def graph_specs(draw, max_nodes: int = 12, min_nodes: int = 0, names: str = "adv
                 if variant == "repoint" and ins:
                     # near-duplicate: one input re-pointed
                     k = draw(st.sampled_from(sorted(ins)))
-                    src = draw(st.sampled_from(cands))
-                    so = nodes[src]["outputs"]
-                    ins[k] = [src, "0" if so is None else draw(st.sampled_from(so))]
+                    rev = {v: kk for kk, v in alias.items()}
+                    if tuple(ins[k]) in alias and alias[tuple(ins[k])] < i and draw(st.booleans()):
+                        ins[k] = [alias[tuple(ins[k])], "0"]  # ... to the node whose name spells the old source output
+                    elif ins[k][0] in rev and draw(st.booleans()):
+                        ins[k] = list(rev[ins[k][0]])
+                    else:
+                        src = draw(st.sampled_from(cands))
+                        so = nodes[src]["outputs"]
+                        ins[k] = [src, "0" if so is None else draw(st.sampled_from(so))]
                 elif variant == "reordered" and len(ins) >= 2:
                     # a true duplicate whose inputs were given in another order
                     nodes[-1]["inputs"] = {k: ins[k] for k in reversed(list(ins))}
